@@ -28,6 +28,9 @@ def das():
 
 
 def cases(rng, tier):
+    # objects built from sequence files (two per block)
+    for c in gen.file_cases(rng, 12 if tier == "quick" else 100, ['scd']):
+        yield c
     n = 7 if tier == "quick" else 10
     for pat in gen.patterns_upto(n):
         nt = (len(pat) - pat.count('0')) >= 2
@@ -50,7 +53,7 @@ def cases(rng, tier):
     for s in gen.large_regime():
         yield Case(["q scd " + s], {"kind": "large-regime"})
     # objects that were handed back by the library's own moves / shuffles answer for the sequence they hold
-    for l in core.childq_cases(rng, 40 if tier == "quick" else 400, ["scd"]):
+    for l in core.childq_cases(rng, 90 if tier == "quick" else 600, ["scd"]):
         yield Case([l], {"kind": "object-from-move"})
     # SCD asked AFTER other public calls on the same object
     for c in gen.after_calls_cases(rng, 16 if tier == "quick" else 120, ["scd"]):
@@ -62,7 +65,7 @@ def judge(case, reals, gens, specs):
     if reals[0][0] == "childq":
         ok_c, why = core.judge_childq(reals[0])
         return [] if ok_c else [("violation", 0, why)]
-    if case.tags.get("kind") in ("after-other-calls", "after-calls-on-another-object"):
+    if case.tags.get("kind") in ("after-other-calls", "after-calls-on-another-object", "object-from-file"):
         from ..runner import default_judge
         return default_judge(None, case, reals, gens, specs)      # (only the final scd line: judge_from)
     r, g, s = reals[0], gens[0], specs[0]
